@@ -102,11 +102,14 @@ def execute(ctx, binary, behs):
     if res["drift_count"]:
         # the monitor classified these events as the known deviation class (see FramingTrace!known)
         ev = rows[res["drift_line"] - 1]
-        ctx.finding("C06-partial-trailing-header-clean-EOF",
-                    "a stream that ends inside a message header (1-4 bytes after the last complete message) is reported by the real "
-                    "transport as a clean io.EOF instead of io.ErrUnexpectedEOF (%d cases; first: recs=%s tail=%s chunks=%s -> out=%s)" % (
-                        res["drift_count"], ev.get("recs"), ev.get("tail"), ev.get("chunks"), ev.get("out")),
-                    {"event": ev, "count": res["drift_count"]})
+        # The property text promises the complete messages in order; it is silent about how a stream
+        # that is cut inside a message header must end.  All complete messages ARE delivered here, so
+        # this is an observation (drift from the reference), not a verdict (R2).
+        print("DRIFT property=C06 observation: a stream that ends inside a message header (1-4 bytes after the last complete "
+              "message) is reported by the real transport as a clean io.EOF instead of io.ErrUnexpectedEOF "
+              "(%d cases; first: recs=%s tail=%s chunks=%s -> out=%s)" % (
+                  res["drift_count"], ev.get("recs"), ev.get("tail"), ev.get("chunks"), ev.get("out")), flush=True)
+        ctx.cov["observations"] = ["partial trailing header reported as clean EOF: %d cases" % res["drift_count"]]
     if not res["accepted"]:
         ev = rows[res["line"] - 1]
         ctx.violation("framing: clause %s at trace line %d: mode=%s limit=%s enc=%r havedec=%s server=%s recs=%s tail=%s chunks=%s -> out=%s pulled=%s" % (
